@@ -46,7 +46,10 @@ func macVerdict(raw []byte, keyOf func(p *scionPkt) []byte, wantSPI uint32) (pre
 	if err != nil || len(opt.OptData) != scion.PacketAuthOptDataLen {
 		return false, false
 	}
-	spi, algo := scion.PacketAuthOptMetadata(opt)
+	// (the option's metadata read here, not with the repository's accessor: security parameter
+	// index in bytes 0..3, algorithm in byte 4, then timestamp and sequence number)
+	spi := uint32(opt.OptData[0])<<24 | uint32(opt.OptData[1])<<16 | uint32(opt.OptData[2])<<8 | uint32(opt.OptData[3])
+	algo := opt.OptData[4]
 	if spi != wantSPI || algo != scion.PacketAuthAlgorithm {
 		return false, false
 	}
@@ -147,7 +150,13 @@ func c13World(t *testing.T, r *simcore.Run) any {
 			spiPat = []byte{0x00, 0x02, 0x00, 0x7b}
 		}
 		at := bytes.Index(mut, spiPat)
-		switch tp.Intn(11, "tkind") {
+		switch tp.Intn(12, "tkind") {
+		case 11: // the authenticated timestamp / sequence number bytes that follow the algorithm byte
+			if at < 0 {
+				return false, nil
+			}
+			kind = "metadata-byte"
+			mut[at+5+tp.Intn(7, "mdb")] ^= 1 << tp.Intn(8, "bit")
 		case 9: // re-sealed under the key that follows from an all-zero first-level key
 			if at < 0 || !p.toSrv {
 				return false, nil
